@@ -116,6 +116,62 @@ def oracle_c15_cg(cid, impl, m):
     return True
 
 
+# ---------------------------------------------------------------- encodings (C18)
+
+def _c18_impl_eq_model(impl, m):
+    """The implementation's line equals the faithful model's line on every compared key."""
+    return all((k in m and m[k] == v) for k, v in impl.items() if not k.startswith("x_"))
+
+
+def oracle_c18(cid, impl, m):
+    """decode(encode x) = x for the URL-query / proto / JSON codecs on well-formed values;
+    FromString(String x) = x on DomString; a parsed string prints and re-parses to the same
+    value (or the input is rejected with an error). `in`, `wf`, `dom`, `trimclass` are spec
+    columns computed by the Lean driver from the INPUT (resp. from the model's parse)."""
+    op = m.get("op")
+    if op is None:
+        return None
+    if op == "str-parse":
+        if impl.get("cli") == "differs":
+            return ("c18-cli-parse", "`keto relation-tuple parse` and FromString disagree on the same row")
+        res = impl.get("res", "")
+        if res.startswith("err:"):
+            return True                      # rejected with an error, not mis-parsed
+        if res != "ok":
+            return None
+        val = impl.get("val", "")
+        kind = val.split(",")[3:4]
+        if kind not in (["i"], ["s"]):
+            return ("c18-parse-subject-kind", f"FromString returned a tuple without exactly one subject kind: {val}")
+        if impl.get("res2") == "ok" and impl.get("val2") == val:
+            return True
+        msg = (f"parse → print → parse is not stable: parsed {val}, printed {impl.get('str')}, "
+               f"re-parsed {impl.get('res2')} {impl.get('val2')}")
+        if m.get("trimclass") == "1" and _c18_impl_eq_model(impl, m):
+            return ("trim-parens", msg)
+        return ("c18-reparse", msg)
+    if op == "tuple-string":
+        if m.get("dom") != "1":
+            return None
+        if impl.get("res") == "ok" and impl.get("val") == m.get("in"):
+            return True
+        return ("c18-string-dom", f"FromString(String(x)) != x on the documented domain: x={m.get('in')} "
+                                  f"printed {impl.get('str')} parsed {impl.get('res')} {impl.get('val')}")
+    if op in ("url-tuple", "url-query", "proto-tuple", "proto-query", "json-tuple", "json-query"):
+        if m.get("wf") != "1":
+            return None
+        want = m.get("in")
+        if op == "proto-tuple" and impl.get("pres") != "ok":
+            return ("c18-" + op, f"ToProto failed on a well-formed tuple {want}: {impl.get('pres')}")
+        for rk, vk in (("res", "val"), ("dres", "dval"), ("fres", "fval")):
+            if rk not in impl:
+                continue
+            if impl[rk] != "ok" or impl.get(vk) != want:
+                return ("c18-" + op, f"decode(encode x) != x ({rk}/{vk}): x={want} got {impl[rk]} {impl.get(vk)}")
+        return True
+    return None      # decoder-only ops, sset-parse, utf8: correspondence only
+
+
 ENGINE_RULE = ("configs from an OPL-shaped grammar (1-4 namespaces, related relations with plain and SubjectSet types, "
                "permissions over includes/permits/traverse/!/&&/||, rendered to OPL and loaded through the real parser, "
                "or legacy namespaces without relations), 0-54 tuples biased to declared relations, chains, cycles, duplicates; "
@@ -123,6 +179,30 @@ ENGINE_RULE = ("configs from an OPL-shaped grammar (1-4 namespaces, related rela
                "distinct = distinct protocol lines")
 
 PROPS = {
+    "C18": {
+        "lean_module": "Keto.Props.C18",
+        "theorems": ["Keto.C18_json_tags_tie", "Keto.C18_json_keys",
+                     "Keto.C18_url_tuple", "Keto.C18_url_tuple_side_condition", "Keto.C18_url_query",
+                     "Keto.C18_proto_tuple", "Keto.C18_proto_tuple_side_condition", "Keto.C18_proto_query",
+                     "Keto.C18_json_tuple", "Keto.C18_json_query", "Keto.C18_subject_kind_preserved",
+                     "Keto.C18_string_dom", "Keto.C18_string_dom_tight", "Keto.C18_string_dom_iff",
+                     "Keto.C18_reject", "Keto.C18_reject_subject", "Keto.C18_parse_image",
+                     "Keto.C18_idempotent_partial", "Keto.C18_trim_counterexample", "Keto.C18_trim_class_exact"],
+        "streams": [{"name": "enc", "n": {"quick": 6000, "thorough": 60000}, "oracle": oracle_c18, "thorough_seeds": 3}],
+        "rule": ("tuples / queries / strings over an alphabet weighted towards : # @ ( ) (40%), space % & = + ; / ? quotes, "
+                 "control characters, NUL, multi-byte and combining runes (25%), letters/digits (35%); lengths 0 (18%), 1-3, 4-9, "
+                 "10-49, 200-999 (2%); tuples with id / set / no / both subjects; parse inputs = printed tuples, mutated printed "
+                 "tuples, hand-assembled shapes around the separators and parentheses, noise; decoder inputs = url.Values / "
+                 "proto messages / JSON objects with missing, duplicate, null, mistyped and junk members; every case runs the real "
+                 "ketoapi functions and the real net/url, encoding/json, protobuf wire codecs; "
+                 "non-trivial = every case except byte strings that are not UTF-8; distinct = distinct protocol lines"),
+        "partial": "C18_idempotent_partial: print/re-parse is the identity on every parse result outside TrimClass "
+                   "(subject set, empty relation, object ending with a parenthesis); known finding F-trim",
+        "assumptions": ["strings are sequences of Unicode scalar values (valid UTF-8); byte strings that are not UTF-8 are "
+                        "outside the model (JSON replaces them by U+FFFD, proto refuses to marshal them; URL query keeps them)",
+                        "net/url escaping, encoding/json and the protobuf wire format are exercised by the harness, not modelled",
+                        "encoding/json's case-insensitive key matching is not modelled (generator uses exact keys)"],
+    },
     "C11": {
         "lean_module": "Keto.Props.C11",
         "theorems": ["Keto.C11_forward_partial", "Keto.C11_build_no_schema", "Keto.C11_forward_partial_storage_only",
@@ -133,8 +213,11 @@ PROPS = {
         "assumptions": [],
     },
     "C15": {
-        "lean_module": "Keto.Props.C15",
-        "theorems": ["Keto.C15_check_terminates", "Keto.C15_build_terminates", "Keto.C15_fuel_irrelevant"],
+        "lean_module": ["Keto.Props.C15", "Keto.Props.C15cg", "Keto.Proofs.FactsTie"],
+        "theorems": ["Keto.C15_check_terminates", "Keto.C15_build_terminates", "Keto.C15_fuel_irrelevant",
+                     "Keto.CG.C15_cg_one_at_a_time", "Keto.CG.C15_cg_result", "Keto.CG.C15_cg_result_quiet", "Keto.CG.C15_cg_result_prefix",
+                     "Keto.CG.C15_cg_ctx", "Keto.CG.C15_cg_no_leak", "Keto.CG.C15_cg_drain_progress", "Keto.CG.C15_cg_done_only_drain",
+                     "Keto.CG.cg_no_drop", "Keto.FactsTie.chanSites_tie"],
         "streams": [{"name": "cg", "n": {"quick": 400, "thorough": 4000}, "oracle": oracle_c15_cg, "thorough_seeds": 3},
                     {"name": "engine-life", "n": {"quick": 60, "thorough": 600}, "oracle": oracle_c15_life, "thorough_seeds": 3,
                      "ignore": ["res", "calls"]}],
